@@ -697,6 +697,7 @@ func c01Run_(c *Case) {
 	i := c.Idx
 	if i == 0 {
 		c01DbgLex(c)
+		round8Hand(c, "C01")
 	}
 	switch {
 	case i < c01E1:
